@@ -24,7 +24,7 @@
 (* The module has a single CONSTANT C (a configuration record) so that     *)
 (* the trace validator can instantiate it per recorded trace.              *)
 (***************************************************************************)
-EXTENDS Integers, Sequences, FiniteSets, SequencesExt
+EXTENDS Integers, Sequences, FiniteSets, SequencesExt, FeeCore
 
 CONSTANT C
 (* C == [ syms     : sequence of symbol names (strings)
@@ -207,18 +207,19 @@ RepayLoanI(s, j, cause) ==
 
 (* ------------------------------ fees ------------------------------------ *)
 \* total fee due (quote units, rounded up) for a cumulative traded quote amount tq
+\* (FeeCore.FeeDueP: max(tq * feeN/feeD, minFee) with minFee = minFeeN*QS/minFeeD units, then ROUND_UP; the closed form
+\* "fees charged over any sequence of fills = FeeDue(total)" is proved for all parameters in proofs/FeeProof.tla)
 FeeDue(p, tq) ==
   IF C.feeMode \in {"none", "base"} THEN 0
-  ELSE \* max(tq * feeN/feeD, minFee) with minFee = minFeeN*QS/minFeeD units, then ROUND_UP
-       LET a == CeilDiv(tq * C.feeN, C.feeD)
-           m == CeilDiv(C.minFeeN * QS(p), C.minFeeD)
-       IN Max2(a, m)
+  ELSE FeeDueP(C.feeN, C.feeD, C.minFeeN, C.minFeeD, QS(p), tq)
 \* A user-defined FeeStrategy that charges in the BASE symbol (C.feeMode = "base"): feeN/feeD of the base amount of every
 \* fill, rounded up to the base precision by OrderManager._round_fees.  Liquidity is consumed by the traded amount, not by
 \* the amount net of fees; a sell reserves amount + estimated fee of the base symbol.
 FeeB(base) == IF C.feeMode = "base" THEN CeilDiv(base * C.feeN, C.feeD) ELSE 0
 \* Percentage.calculate_fees + _round_fees: what is still to be charged given what was charged
-FeeDelta(p, tqBefore, charged, dq) == Max2(0, FeeDue(p, tqBefore + dq) - charged)
+FeeDelta(p, tqBefore, charged, dq) ==
+  IF C.feeMode \in {"none", "base"} THEN Max2(0, 0 - charged)
+  ELSE FeeDeltaP(C.feeN, C.feeD, C.minFeeN, C.minFeeD, QS(p), tqBefore, charged, dq)
 
 (* ------------------------- order acceptance ----------------------------- *)
 Sign(op) == IF op = "buy" THEN 1 ELSE -1
